@@ -2511,9 +2511,45 @@ impl Reference
 		// or the error that caused it is never reported.
 		let value_type = value_type.filter(|x| x.is_ok() || !is_declared);
 
-		let member = member.map(|member| (member, value_type.clone()));
+		let full_type =
+			build_type_of_reference(value_type.clone(), &steps, false);
+		match (&full_type, &value_type)
+		{
+			(Some(Ok(full_type)), Some(Ok(vt))) if !full_type.is_wellformed() =>
+			{
+				// A value of this type can never be part of the assignee.
+				let location = assignment_value
+					.map_or(&self.location, |value| value.location())
+					.clone();
+				let error = match typer.get_valid_declaration(symbol)
+				{
+					Some((previous_type, previous)) =>
+					{
+						Error::ConflictingTypesInAssignment {
+							name: base.name.clone(),
+							current_type: vt.clone(),
+							previous_type,
+							location,
+							previous,
+						}
+					}
+					None => Error::IllegalType {
+						value_type: full_type.clone(),
+						location,
+					},
+				};
+				return Reference {
+					base: Err(Poison::Error(error)),
+					steps,
+					address_depth: 0,
+					location: self.location,
+					location_of_unaddressed: self.location_of_unaddressed,
+				};
+			}
+			_ => (),
+		}
 
-		let full_type = build_type_of_reference(value_type, &steps, false);
+		let member = member.map(|member| (member, value_type));
 		let assignment_error = match typer.put_symbol(base, full_type)
 		{
 			Ok(()) => match member
